@@ -585,6 +585,7 @@ func (g *PG) genTry(t Ty, d int) *canon.Node {
 		l = append(l, g.sideEffect(d+1))
 	}
 	throws := r.Intn(2) == 0
+	bodyEndsWithMacro := false
 	if throws {
 		if r.Intn(3) == 0 {
 			// throw in the middle: later body forms must not run
@@ -593,10 +594,18 @@ func (g *PG) genTry(t Ty, d int) *canon.Node {
 			l = append(l, g.thrower(d+1))
 		}
 		g.stat("try-body-throws")
+	} else if g.o.Macros && len(g.macros) > 0 && r.Intn(3) == 0 {
+		// the last body form is a macro call: it is expanded once, when it is evaluated, like anywhere else
+		g.stat("try-body-ends-with-macro-call")
+		l = append(l, g.macroCall(d+1))
+		bodyEndsWithMacro = true
 	} else {
 		l = append(l, g.Expr(t, d+1))
 	}
 	hasCatch := r.Intn(4) != 0
+	if bodyEndsWithMacro && r.Intn(2) == 0 {
+		hasCatch = false
+	}
 	hasFinally := r.Intn(2) == 0
 	// the catch symbol is also bound further out to a known value: finally and later code must see that one
 	cv := "e"
